@@ -28,10 +28,13 @@ RULE = ("programs = behaviours of Gen.tla with the scope probes (a module body r
         "later, rebinding, reserved words, parameters named like outer bindings); checked in the model: PrefixStable, "
         "Agreement, NoPanic; replayed: the whole program and EVERY proper prefix are evaluated by "
         "FileBuilder::eval_string - each binding a prefix makes must be present and equal in the whole program and equal "
-        "to the value the specification predicts for that prefix; non-trivial = distinct program compiling to >= 6 ops")
+        "to the value the specification predicts for that prefix; a sample of executions is recorded (one event per opcode "
+        "and per binding_push) and validated against VM.tla by VMTrace.tla, where every `bind` event must agree with the "
+        "model's symbol tables; non-trivial = distinct program compiling to >= 6 ops")
 
 
 def main(tier, replay=None):
     t0 = time.time()
     fam = QUICK if tier == "quick" else THOROUGH
-    return c01.run(PID, tier, fam, t0, worker=c01.work_prefix, rule=RULE)
+    return c01.run(PID, tier, fam, t0, worker=c01.work_prefix, rule=RULE,
+                   after=lambda rep, stats, okprogs: c01.trace_leg(tier, rep, stats, okprogs, gd_tag="c10t"))
